@@ -701,6 +701,44 @@ fn c05(args: &Args, rep: &mut Report, w: &Watch) {
         rep.count("exhaustive_size3_types", s3.len() as u64);
     }
 
+    // open lists against unions of open lists: every family of proper sub-sets of a small element pool as the
+    // rests of the right-hand members, with 0-1 prefix elements (a counterexample needs as many positions
+    // past the prefix as there are members to escape)
+    if args.shard == 1 % args.of {
+        let pools: Vec<Vec<Runtype>> = vec![
+            vec![tgen::lit_n(1), tgen::lit_n(2)],
+            vec![Runtype::string(), Runtype::number()],
+            vec![tgen::lit_n(1), tgen::lit_n(2), tgen::lit_n(3)],
+            vec![tgen::lit_s("a"), Runtype::number(), Runtype::null()],
+        ];
+        let u = |ms: Vec<Runtype>| if ms.len() == 1 { ms[0].clone() } else { tgen::raw_any_of(ms) };
+        for pool in &pools {
+            let n = pool.len();
+            let subsets: Vec<Vec<Runtype>> = (1u32..(1 << n) - 1).map(|m| (0..n).filter(|i| m & (1 << i) != 0).map(|i| pool[i].clone()).collect()).collect();
+            for pre in [vec![], vec![Runtype::boolean()]] {
+                let left = Runtype::tuple(pre.clone(), Some(Box::new(u(pool.clone()))));
+                // families of 2 and 3 sub-sets
+                for i in 0..subsets.len() {
+                    for j in (i + 1)..subsets.len() {
+                        let mut fams = vec![vec![i, j]];
+                        for k in (j + 1)..subsets.len() {
+                            fams.push(vec![i, j, k]);
+                        }
+                        for fam in fams {
+                            let right = tgen::raw_any_of(fam.iter().map(|&x| Runtype::tuple(pre.clone(), Some(Box::new(u(subsets[x].clone()))))).collect());
+                            c05_one(rep, w, &Case { s: left.clone(), t: right.clone(), defs: vec![], t_first: false }, cap, "open-list-grid");
+                            // the same with the empty list and the one-element lists split off (a cover that holds)
+                            let mut ms = vec![Runtype::tuple(pre.clone(), None)];
+                            ms.push(Runtype::tuple(pre.iter().cloned().chain(std::iter::once(u(pool.clone()))).collect(), Some(Box::new(u(pool.clone())))));
+                            c05_one(rep, w, &Case { s: left.clone(), t: tgen::raw_any_of(ms), defs: vec![], t_first: true }, cap, "open-list-grid");
+                            rep.count("open_list_grid", 2);
+                        }
+                    }
+                }
+            }
+        }
+    }
+
     // finite index signatures (a record over a literal key set, as the frontend builds it for template
     // keys) against the same keys declared by name, with and without an index signature next to them
     if args.shard == 0 {
@@ -864,6 +902,26 @@ fn c05(args: &Args, rep: &mut Report, w: &Watch) {
                         .collect();
                     let c = Case { s: s_ty, t: tgen::raw_any_of(bricks), defs: vec![], t_first: rng.chance(1, 2) };
                     c05_one(rep, w, &c, cap, "cover-index-signature");
+                    continue;
+                }
+                if !as_object && rng.chance(1, 3) {
+                    // open lists: the left side's rest element is a union, the bricks are open lists whose
+                    // rest covers a part of it each - a counterexample needs one position past the longest
+                    // prefix PER brick (e.g. (1|2)[] against 1[] | 2[]: [1, 2])
+                    let pool = slots[0];
+                    let npre = rng.below(2);
+                    let pre: Vec<Runtype> = (0..npre).map(|_| subset(&mut rng, pool, 1)).collect();
+                    let s_ty = Runtype::tuple(pre.clone(), Some(Box::new(subset(&mut rng, pool, 2))));
+                    let nbricks = 2 + rng.below(3);
+                    let bricks: Vec<Runtype> = (0..nbricks)
+                        .map(|_| {
+                            let bp: Vec<Runtype> = if rng.chance(2, 3) { pre.clone() } else { (0..rng.below(3)).map(|_| subset(&mut rng, pool, 1)).collect() };
+                            let rest = if rng.chance(5, 6) { Some(Box::new(subset(&mut rng, pool, 1))) } else { None };
+                            Runtype::tuple(bp, rest)
+                        })
+                        .collect();
+                    let c = Case { s: s_ty, t: tgen::raw_any_of(bricks), defs: vec![], t_first: rng.chance(1, 2) };
+                    c05_one(rep, w, &c, cap, "cover-open-lists");
                     continue;
                 }
                 let s_ty = build(&mut rng, s_parts, true);
